@@ -81,7 +81,18 @@ type prepGoroutine struct {
 	method   *FuncInfo    // nil for a literal
 }
 
-func prepareParts(p *Program, r *Report) (fi *FuncInfo, keyObj types.Object, cb *ast.FuncLit, gor *prepGoroutine) {
+// prepLookup is where prepareStatement consults the cache and, on a miss, registers the in-flight entry under the
+// cache's lock: the callback literal handed to execIfMissing, or a lookup-or-insert method of the cache.
+type prepLookup struct {
+	call   *ast.CallExpr // the call in prepareStatement
+	keyArg ast.Expr      // the key it is given
+	body   *ast.BlockStmt
+	node   ast.Node       // the literal / the method declaration
+	keyIn  types.Object   // the key inside body (captured variable or parameter)
+	method *FuncInfo      // nil for the callback form
+}
+
+func prepareParts(p *Program, r *Report) (fi *FuncInfo, keyObj types.Object, cb *prepLookup, gor *prepGoroutine) {
 	fi = r.NeedFunc("(*Conn).prepareStatement")
 	if fi == nil {
 		return
@@ -98,15 +109,53 @@ func prepareParts(p *Program, r *Report) (fi *FuncInfo, keyObj types.Object, cb 
 					}
 				}
 			}
-		case *ast.CallExpr:
-			if isCallTo(info, x, "(*preparedLRU).execIfMissing") && len(x.Args) == 2 {
-				cb, _ = ast.Unparen(x.Args[1]).(*ast.FuncLit)
-			}
 		case *ast.GoStmt:
 			goStmt = x
 		}
 		return true
 	})
+	if keyObj != nil {
+		for _, x := range callsIn(fi.Decl.Body) {
+			if isCallTo(info, x, "(*preparedLRU).execIfMissing") && len(x.Args) == 2 {
+				if lit, isLit := ast.Unparen(x.Args[1]).(*ast.FuncLit); isLit {
+					cb = &prepLookup{call: x, keyArg: x.Args[0], body: lit.Body, node: lit, keyIn: keyObj}
+				}
+				continue
+			}
+			// a method of the cache that looks the key up and adds the entry itself
+			fn := calleeOf(info, x)
+			if fn == nil || cb != nil {
+				continue
+			}
+			m := p.FuncOf(fn)
+			if m == nil || m.Decl.Body == nil || m.Decl.Recv == nil || typeNameOf(info.TypeOf(recvExpr(x))) != "preparedLRU" {
+				continue
+			}
+			hasGet, hasAdd := false, false
+			for _, mc := range callsIn(m.Decl.Body) {
+				switch calleeName(m.Pkg.TypesInfo, mc) {
+				case "lru.(*Cache).Get":
+					hasGet = true
+				case "lru.(*Cache).Add":
+					hasAdd = true
+				}
+			}
+			if !hasGet || !hasAdd {
+				continue
+			}
+			k := 0
+			for _, pf := range m.Decl.Type.Params.List {
+				for _, pn := range pf.Names {
+					if k < len(x.Args) && isIdentOf(info, x.Args[k], keyObj) {
+						if kp := m.Pkg.TypesInfo.Defs[pn]; kp != nil && neverAssigned(m.Pkg.TypesInfo, m.Decl.Body, kp) {
+							cb = &prepLookup{call: x, keyArg: x.Args[k], body: m.Decl.Body, node: m.Decl, keyIn: kp, method: m}
+						}
+					}
+					k++
+				}
+			}
+		}
+	}
 	if goStmt != nil && keyObj != nil {
 		if l, ok := goStmt.Call.Fun.(*ast.FuncLit); ok {
 			gor = &prepGoroutine{node: l, body: l.Body, g: p.GraphOfLit(fi, l), key: keyObj}
@@ -123,7 +172,28 @@ func prepareParts(p *Program, r *Report) (fi *FuncInfo, keyObj types.Object, cb 
 						k++
 					}
 				}
-				if keyParam != nil && neverAssigned(m.Pkg.TypesInfo, m.Decl.Body, keyParam) {
+				if keyParam == nil {
+					// the key travels in a field of a job value built in the argument list
+					for _, a := range goStmt.Call.Args {
+						lit := ast.Unparen(a)
+						if u, isU := lit.(*ast.UnaryExpr); isU && u.Op == token.AND {
+							lit = ast.Unparen(u.X)
+						}
+						if cl, isCl := lit.(*ast.CompositeLit); isCl {
+							for _, el := range cl.Elts {
+								if kv, isKV := el.(*ast.KeyValueExpr); isKV && isIdentOf(info, kv.Value, keyObj) {
+									if kid, isK := kv.Key.(*ast.Ident); isK {
+										if f := info.Uses[kid]; f != nil && neverStoredField(p, f) {
+											gor = &prepGoroutine{node: m.Decl, body: m.Decl.Body, g: p.GraphOf(m), keyField: f, method: m}
+										}
+									}
+								}
+							}
+						}
+					}
+				}
+				if gor != nil {
+				} else if keyParam != nil && neverAssigned(m.Pkg.TypesInfo, m.Decl.Body, keyParam) {
 					gor = &prepGoroutine{node: m.Decl, body: m.Decl.Body, g: p.GraphOf(m), key: keyParam, method: m}
 				} else if sel, isSel := ast.Unparen(goStmt.Call.Fun).(*ast.SelectorExpr); isSel && keyParam == nil {
 					// the key travels in a field of the job object the method is started on
@@ -162,25 +232,66 @@ func c14r2(p *Program, r *Report) {
 		return
 	}
 	info := fi.Pkg.TypesInfo
-	ast.Inspect(fi.Decl.Body, func(n ast.Node) bool {
-		c, ok := n.(*ast.CallExpr)
-		if ok && isCallTo(info, c, "(*preparedLRU).execIfMissing") {
-			r.Check(isIdentOf(info, c.Args[0], keyObj) && singleAssigned(info, fi.Decl.Body, keyObj), c, "(*Conn).prepareStatement lookup key", "looked up under the key built by keyFor", "the cache is consulted under a different key than the one built for this statement")
-		}
-		return true
-	})
+	r.Check(isIdentOf(info, cb.keyArg, keyObj) && singleAssigned(info, fi.Decl.Body, keyObj), cb.call, "(*Conn).prepareStatement lookup key", "looked up under the key built by keyFor", "the cache is consulted under a different key than the one built for this statement")
 	nadd := 0
-	ast.Inspect(cb.Body, func(n ast.Node) bool {
+	var adds, gets []*ast.CallExpr
+	ast.Inspect(cb.body, func(n ast.Node) bool {
 		c, ok := n.(*ast.CallExpr)
 		if ok && isCallTo(info, c, "lru.(*Cache).Add") {
 			nadd++
-			r.Check(len(c.Args) == 2 && isIdentOf(info, c.Args[0], keyObj), c, "(*Conn).prepareStatement in-flight entry added under the looked-up key", "same key, same critical section as the miss",
+			adds = append(adds, c)
+			r.Check(len(c.Args) == 2 && isIdentOf(info, c.Args[0], cb.keyIn), c, "(*Conn).prepareStatement in-flight entry added under the looked-up key", "same key, same critical section as the miss",
 				"the in-flight entry is stored under a different key than the one that was looked up: concurrent executors do not find it and each sends its own PREPARE")
+		}
+		if ok && isCallTo(info, c, "lru.(*Cache).Get") {
+			gets = append(gets, c)
 		}
 		return true
 	})
 	if nadd == 0 {
-		r.Bad(cb, "(*Conn).prepareStatement callback registers the in-flight entry", "the miss callback does not add the in-flight entry inside the critical section: two executors can both miss and both PREPARE")
+		r.Bad(cb.node, "(*Conn).prepareStatement callback registers the in-flight entry", "the miss callback does not add the in-flight entry inside the critical section: two executors can both miss and both PREPARE")
+	}
+	if cb.method != nil {
+		// the method does the lookup itself: same key, and no release of the lock between the miss and the insertion
+		g := p.GraphOf(cb.method)
+		locks := g.Lockset()
+		okGet := len(gets) > 0
+		for _, c := range gets {
+			if len(c.Args) != 1 || !isIdentOf(info, c.Args[0], cb.keyIn) {
+				okGet = false
+			}
+		}
+		r.Check(okGet, cb.node, "(*Conn).prepareStatement lookup under the key it is given", cb.method.Name+" looks up its key parameter", "the cache method looks up a different key than the one it is given")
+		ef := g.Events(func(st Step) []string {
+			if st.Kind != StNode {
+				return nil
+			}
+			if _, isDefer := st.Node.(*ast.DeferStmt); isDefer {
+				return nil
+			}
+			var evs []string
+			for _, c := range callsIn(st.Node) {
+				if kind, ok := isMutexMethod(calleeName(info, c)); ok && (kind == "Unlock" || kind == "RUnlock") {
+					evs = append(evs, "unlock")
+				}
+				if isCallTo(info, c, "lru.(*Cache).Get") {
+					evs = append(evs, "get")
+				}
+			}
+			return evs
+		})
+		for _, c := range adds {
+			ls, okL := locks.Before(p.stmtOf(c, cb.method))
+			held := false
+			for k := range ls {
+				if strings.HasSuffix(k, ".mu") {
+					held = true
+				}
+			}
+			es, _ := ef.Sol.Before(p.stmtOf(c, cb.method))
+			r.Check(okL && held && es.Must["get"] && es.Max["unlock"] == 0, c, "(*Conn).prepareStatement miss and insertion in one critical section", "Get and Add under one acquisition of the cache mutex",
+				"the in-flight entry is added after the lock that covered the lookup was released (or without the lookup): two executors can both miss and both PREPARE")
+		}
 	}
 }
 
@@ -537,24 +648,26 @@ func c14r7(p *Program, r *Report) {
 	if add != nil {
 		info := add.Pkg.TypesInfo
 		found := false
-		ast.Inspect(add.Decl.Body, func(n ast.Node) bool {
-			ifs, ok := n.(*ast.IfStmt)
+		// an eviction call at a point where the list is known to be longer than (or as long as) MaxEntries
+		facts := p.GraphOf(add).GuardFacts()
+		for _, c := range callsIn(add.Decl.Body) {
+			if !isCallTo(info, c, "lru.(*Cache).RemoveOldest", "lru.(*Cache).removeElement") {
+				continue
+			}
+			f, ok := facts.Before(p.stmtOf(c, add))
 			if !ok {
-				return true
+				continue
 			}
-			cs := exprStr(ifs.Cond)
-			if strings.Contains(cs, "Len() > c.MaxEntries") || strings.Contains(cs, "c.MaxEntries < c.ll.Len()") || strings.Contains(cs, "Len() >= c.MaxEntries") {
-				evicts := false
-				ast.Inspect(ifs.Body, func(m ast.Node) bool {
-					if c, ok := m.(*ast.CallExpr); ok && isCallTo(info, c, "lru.(*Cache).RemoveOldest", "lru.(*Cache).removeElement") {
-						evicts = true
-					}
-					return true
-				})
-				found = evicts
+			for k, v := range f.m {
+				ks := strings.ReplaceAll(k, " ", "")
+				if v && strings.HasSuffix(ks, ".MaxEntries<"+strings.TrimSuffix(strings.SplitN(ks, ".MaxEntries<", 2)[0], "")+".ll.Len()") && strings.Contains(ks, ".MaxEntries<") {
+					found = true
+				}
+				if !v && strings.Contains(ks, ".ll.Len()<") && strings.HasSuffix(ks, ".MaxEntries") {
+					found = true
+				}
 			}
-			return true
-		})
+		}
 		r.Check(found, add.Decl, "lru.(*Cache).Add evicts beyond MaxEntries", "oldest entry removed when the list exceeds MaxEntries", "Add no longer evicts when the cache exceeds MaxEntries: the prepared-statement cache grows without bound")
 		// the comparison fits its position: after the insertion the list may be MaxEntries+1 long (evict when Len > Max),
 		// before it the list must be left at most MaxEntries-1 long (evict when Len >= Max)
